@@ -120,10 +120,10 @@ Proof.
   - (* TBasic *) intros cm l IHl r IHr alias c og. cbn [render ttoks].
     rewrite (IHl _ og). destruct (ttoks _ og l); [cbn [rmap bind]|reflexivity].
     rewrite (IHr _ og). destruct (ttoks _ og r); [cbn [rmap bind]|reflexivity].
-    destruct (wa c); unfold alias_sql; fin.
+    destruct (wa c); fin.
   - (* TCplx *) intros bo l IHl r IHr alias c og. cbn [render ttoks].
     rewrite (IHl _ og). destruct (ttoks _ og l); [cbn [rmap bind]|reflexivity].
-    rewrite (IHr _ og). destruct (ttoks _ og r); [cbn [rmap bind]|reflexivity]. fin.
+    rewrite (IHr _ og). destruct (ttoks _ og r); [cbn [rmap bind]|reflexivity]. destruct (wa c); fin.
   - (* TIn *) intros t IHt cont IHc negated alias c og. cbn [render ttoks].
     rewrite (IHt _ og). destruct (ttoks _ og t); [cbn [rmap bind]|reflexivity].
     rewrite (IHc _ og). destruct (ttoks _ og cont); [cbn [rmap bind]|reflexivity]. fin.
@@ -150,12 +150,12 @@ Proof.
     + cbn in IHe. rewrite (IHe (set_wa c false) og). destruct (ttoks (set_wa c false) og t'); [cbn [rmap bind]|reflexivity].
       destruct (wa c); fin.
   - (* TFunc *) intros name args IHa special alias c og. cbn [render ttoks].
-    rewrite (IHa (fctx c) (OFn None)). destruct (ttoks_list (fctx c) (OFn None) args); [cbn [rmap bind]|reflexivity].
+    rewrite (IHa (fctx c) og). destruct (ttoks_list (fctx c) og args); [cbn [rmap bind]|reflexivity].
     destruct (wa c); fin.
   - (* TTuple *) intros vs IHv alias c og. cbn [render ttoks].
-    rewrite (IHv c og). destruct (ttoks_list c og vs); [cbn [rmap bind]|reflexivity]. fin.
+    rewrite (IHv _ og). destruct (ttoks_list _ og vs); [cbn [rmap bind]|reflexivity]. fin.
   - (* TArray *) intros vs IHv alias c og. cbn [render ttoks].
-    rewrite (IHv c og). destruct (ttoks_list c og vs) as [ss|]; [cbn [rmap bind]|reflexivity].
+    rewrite (IHv _ og). destruct (ttoks_list _ og vs) as [ss|]; [cbn [rmap bind]|reflexivity].
     rewrite tflat_alias_toks. do 2 f_equal.
     destruct (is_pg (dia c)); [|fin].
     rewrite (tflat_tjoin "," ss).
@@ -195,8 +195,8 @@ Lemma ctx_ok_set_wn v og c b : ctx_ok v og c -> ctx_ok v og (set_wn c b).
 Proof. destruct c; exact (fun H => H). Qed.
 Lemma ctx_ok_opc v og sl t c : ctx_ok v og c -> ctx_ok v og (opc sl t c).
 Proof. intros H. unfold opc. destruct (operand_parens sl (okind_of t) && negb operand_keeps_subc); [apply ctx_ok_set_subc|]; exact H. Qed.
-Lemma ctx_ok_fctx v og c : ctx_ok v og c -> ctx_ok v (OFn None) (fctx c).
-Proof. intros [H _]. repeat split; assumption. Qed.
+Lemma ctx_ok_fctx v og c : ctx_ok v og c -> ctx_ok v og (fctx c).
+Proof. destruct c; exact (fun H => H). Qed.
 
 Lemma ex_nil v : ex v [].
 Proof. constructor. Qed.
@@ -267,13 +267,11 @@ Definition Ew (l : wlist) := forall c og v ss, ctx_ok v og c -> ttoks_whens c og
 Definition Eo (o : oterm) := match o with ONone => True | OSome t => Et t end.
 
 Lemma ex_falias v og r ts alias qc aqc kw :
-  (forall a, exact_q v (false, AId r (or_ostr aqc qc) a og)) -> kw = og_as v og -> og_adm v og = true ->
-  (match r with RQAlias ci => v_adm v ci = true \/ ci = CQuery | _ => True end) -> ex v ts ->
+  (forall a, exact_q v (false, AId r (or_ostr aqc qc) a og)) -> kw = og_as v og -> og_adm v og = true -> ex v ts ->
   ex v (falias r og ts alias qc aqc kw).
 Proof.
-  intros Hq Hk Hadm Hr Ht. unfold falias. destruct alias as [a|]; [|exact Ht].
-  apply ex_app; [exact Ht|]. constructor; [split; [exact Hk|exact Hadm]|]. constructor; [split; [apply Hq|]|constructor].
-  unfold adm_tok. cbn [snd]. destruct r; try exact Hadm. split; [exact Hadm|exact Hr].
+  intros Hq Hk Hadm Ht. unfold falias. destruct alias as [a|]; [|exact Ht].
+  apply ex_app; [exact Ht|]. constructor; [split; [exact Hk|exact Hadm]|]. constructor; [split; [apply Hq|exact Hadm]|constructor].
 Qed.
 
 Ltac use_ih :=
@@ -306,10 +304,9 @@ Proof.
   - (* TArith *) intros op l IHl r IHr alias c og v ts Hc H. cbn [ttoks] in H. inv_ok H.
     use_ih. destruct (wa c); auto 8 with exdb.
   - (* TBasic *) intros cm l IHl r IHr alias c og v ts Hc H. cbn [ttoks] in H. inv_ok H.
-    use_ih. destruct (wa c); [|auto with exdb]. destruct Hc as (Hq & _ & Ha & Hk & Hadm).
-    apply ex_falias; [|exact Hk|exact Hadm|exact I|auto with exdb]. intros ?. cbn [exact_q snd]. rewrite Ha. reflexivity.
+    use_ih. destruct (wa c); auto 8 with exdb.
   - (* TCplx *) intros bo l IHl r IHr alias c og v ts Hc H. cbn [ttoks] in H. inv_ok H.
-    use_ih. auto 8 with exdb.
+    use_ih. destruct (wa c); auto 8 with exdb.
   - (* TIn *) intros t IHt cont IHc negated alias c og v ts Hc H. cbn [ttoks] in H. inv_ok H.
     use_ih. auto 8 with exdb.
   - (* TBetween *) intros t IHt lo IHlo hi IHhi alias c og v ts Hc H. cbn [ttoks] in H. inv_ok H.
@@ -341,7 +338,7 @@ Proof.
     assert (X : ex v (tparen (subq c) [T "SELECT "; (false, AId RIdent (q c) col og); T " FROM "; (false, AId RIdent (q c) tbl og)]))
       by auto 10 with exdb.
     destruct (wa c); [|exact X]. destruct Hc as (Hq & _ & Ha & Hk & Hadm).
-    apply ex_falias; [|exact Hk|exact Hadm|right; reflexivity|exact X]. intros ?. cbn [exact_q snd]. rewrite Hq. reflexivity.
+    apply ex_falias; [|exact Hk|exact Hadm|exact X]. intros ?. cbn [exact_q snd]. rewrite Hq. reflexivity.
   - (* TNil *) intros c og v ss Hc H. inversion H. constructor.
   - (* TCons *) intros t IHt r IHr c og v ss Hc H. cbn [ttoks_list] in H. inv_ok H. use_ih. constructor; assumption.
   - (* WNil *) intros c og v ss Hc H. inversion H. constructor.
@@ -494,7 +491,7 @@ Proof.
   - (* TBasic *) intros cm l IHl r IHr alias c c' og og' Hs. cbn [ttoks]. bnd IHl. bnd IHr.
     destruct Hs as (Hwa & _). rewrite Hwa. destruct (wa c'); era_fin.
   - (* TCplx *) intros bo l IHl r IHr alias c c' og og' Hs. cbn [ttoks]. bnd IHl. bnd IHr.
-    destruct Hs as (_ & _ & _ & Hsc). rewrite Hsc. era_fin.
+    destruct Hs as (Hwa & _ & _ & Hsc). rewrite Hsc, Hwa. destruct (wa c'); era_fin.
   - (* TIn *) intros t IHt cont IHc negated alias c c' og og' Hs. cbn [ttoks]. bnd IHt. bnd IHc. era_fin.
   - (* TBetween *) intros t IHt lo IHlo hi IHhi alias c c' og og' Hs. cbn [ttoks]. bnd IHt. bnd IHlo. bnd IHhi. era_fin.
   - (* TBitAnd *) intros t IHt v alias c c' og og' Hs. cbn [ttoks]. bnd IHt. era_fin.
